@@ -45,6 +45,20 @@ class World:
         w2._mesh = None
         return w2
 
+    def decoy(self):
+        """a world over the SAME mesh whose arrays / scalars have other names (trace.DecoySource)"""
+        import copy as _copy
+        from .trace import DecoySource
+        mesh = self.mesh
+        w2 = _copy.copy(self)
+        w2.src = DecoySource(self.src)
+        w2._mesh = mesh
+        if self.symbolic:
+            w2.kinds = {}
+        if hasattr(w2, '_psi'):
+            del w2._psi
+        return w2
+
     def extrude(self, arr, keep_axes, shape):
         """array of `shape` that equals arr along keep_axes and is constant along the others"""
         if self.symbolic:
